@@ -13,7 +13,7 @@ from vpc.core import cN, cbool, clist, copt, cstr
 IMPORTS = "Require Import V.model.SvcLifecycle."
 THEOREMS = ["running_has_live_pid", "refresh_syncs", "stop_leaves_nothing", "remove_leaves_nothing",
             "removed_stays_removed", "failed_op_never_newly_running", "port_conflict_refused",
-            "names_and_dirs_unique", "save_load_identity", "lifecycle_invariants", "lifecycle_constants"]
+            "names_and_dirs_unique", "save_load_identity", "lifecycle_invariants", "lifecycle_constants", "ok_clears_record"]
 RULE = ("histories = lists of add / start / stop / remove / upgrade / refresh / kill over the services added so "
         "far, each with a fault plan (set of call indices that fail); quick: every history of <= 3 operations "
         "over the 13-operation alphabet (2 services) with every 0- and 1-fault placement, a seeded sample of "
@@ -202,17 +202,32 @@ def oracle(c, o):
         if kind in MANAGER_OPS and i < len(s["reg"]) and i < len(pre["reg"]):
             n = s["reg"][i]
             b = pre["reg"][i]
-            # no drift before the operation: if the service's process was alive, the registry knew
-            # (what the refresh at the start of every antctl command establishes)
-            in_sync = b["bin"] not in pre_procs or b["status"] == 1
-            # a successful stop / removal leaves no process and no recorded pid
-            if kind in ("stop", "remove") and s["out"] == 0 and in_sync and not step_probe_fault:
-                if n["pid"] is not None or n["bin"] in procs:
-                    v.append(("%s-left-process" % kind, "%s: reported success but %s has pid %s / live pid %s"
-                              % (where, n["name"], n["pid"], procs.get(n["bin"]))))
+            was_live = b["bin"] in pre_procs
+            # "a successful stop or removal leaves no process and no recorded PID" -- after ANY stop / removal /
+            # upgrade-without-start that reports success, whatever came before and whatever was made to fail
+            done = (kind in ("stop", "remove") and s["out"] == 0) or \
+                   (kind == "upgrade" and not op.get("start", True) and s["out"] in (11, 12))
+            if done:
+                if n["pid"] is not None or n["status"] == 1:
+                    v.append(("%s-ok-but-recorded-running" % kind, "%s: reported success (code %d) but %s is recorded with "
+                              "status %d and pid %s" % (where, s["out"], n["name"], n["status"], n["pid"])))
                 if kind == "remove" and (n["status"] != 3 or n["name"] in installed):
                     v.append(("remove-incomplete", "%s: reported success but %s has status %d, still installed: %s"
                               % (where, n["name"], n["status"], n["name"] in installed)))
+                if n["bin"] in procs:
+                    what = "%s: reported success (code %d) but the process of %s is alive (pid %s)" % (
+                        where, s["out"], n["name"], procs[n["bin"]])
+                    if was_live and b["status"] != 1:
+                        # known class: the process was launched by a start that then failed (or otherwise escaped
+                        # the registry) and the record was not Running, so the manager does not touch it
+                        v.append(("untracked-process-survives", what + "; before the operation it was alive while "
+                                  "the record said status %d" % b["status"]))
+                    elif was_live and b["status"] == 1 and step_probe_fault:
+                        # known class: get_process_pid itself failed and any error is read as "already stopped"
+                        v.append(("probe-error-treated-as-stopped", what + "; the get_process_pid call of this "
+                                  "operation was made to fail"))
+                    else:
+                        v.append(("%s-left-process" % kind, what))
         # a failed operation never newly records a service as running
         if kind in MANAGER_OPS + ("add",) and s["out"] not in OKS:
             for j, n in enumerate(s["reg"]):
@@ -357,6 +372,19 @@ def directed():
     return [{"faults": [], "ops": ops} for ops in out]
 
 
+def dead_process_histories():
+    """a service recorded Running whose process has died (or whose probe is made to fail by a placement), then
+    every operation that has to end with 'nothing running, nothing recorded'"""
+    pre = [{"op": "add"}, {"op": "start", "i": 0}]
+    out = []
+    for tail in ([{"op": "stop", "i": 0}], [{"op": "remove", "i": 0}], [{"op": "refresh"}, {"op": "remove", "i": 0}],
+                 [{"op": "upgrade", "i": 0, "tv": 2, "start": False}], [{"op": "upgrade", "i": 0, "tv": 2, "start": False, "force": True}],
+                 [{"op": "upgrade", "i": 0, "tv": 2}], [{"op": "start", "i": 0}], [{"op": "refresh"}, {"op": "stop", "i": 0}]):
+        out.append({"faults": [], "ops": pre + [{"op": "kill", "i": 0}] + tail})
+        out.append({"faults": [], "ops": pre + tail})
+    return out
+
+
 class Runner:
     """runs batches through ctx.pipeline and remembers how many calls each case made"""
 
@@ -436,7 +464,7 @@ def run(ctx):
         return
     rng = ctx.rng
     thorough = ctx.tier == "thorough"
-    base = [{"faults": [], "ops": ops} for ops in exhaustive(4 if thorough else 3)]
+    base = [{"faults": [], "ops": ops} for ops in exhaustive(4 if thorough else 3)] + dead_process_histories()
     nid = tag(base, nid)
     r.run(base)
     singles = placements(r, base, rng)
